@@ -195,7 +195,9 @@ def download(
             HTTPException,
             ConnectionError,
             TimeoutError,
-            UnicodeDecodeError,
+            # Bytes that are no text came back, or the identifier cannot be
+            # put into a URL.
+            UnicodeError,
         ):
             _could_not_download(lic)
             return_code = 1
